@@ -20,7 +20,7 @@ EXPLANATION = (
     "(index has key 0 / non-empty) or the creating branch of initialise() writes one; R27.2 at `_index.insert` in initialise() the "
     "result of read(_iod,&rec,sizeof rec) is proven == sizeof rec by dominating guards; R27.3 put(seq,bytes): write(data) ≺ "
     "write(index) ≺ _index.insert, both writes compared against their full length with failure returning false; the offset stored is "
-    "the data file's end before the write; R27.4 control put: lseek(_iod,0,SEEK_SET) ≺ single write(sizeof(IPrec)). NOT decided: "
+    "the data file's end before the write; R27.4 control put: lseek(_iod,0,SEEK_SET) ≺ single write(sizeof(IPrec)). R27.5 every tested lseek result in FilePersister counts only a negative value as failure; R27.6 in the index replay of initialise() no test on the record's offset/size fields can keep a complete record out of the index. NOT decided: "
     "enumeration of crash points × operation sequences.")
 
 F = 'FIX8::FilePersister::'
@@ -28,6 +28,18 @@ F = 'FIX8::FilePersister::'
 
 def _fd_is(n, member):
     return q.refers_to_member(n.strip(casts=True), F + member)
+
+
+def append_rule(ctx, put, data_write, RID):
+    """the data bytes of a record go to the END of the data file (get() repositions the same descriptor, so the current position is not the end)"""
+    pc = put.cfg
+    seeks = [c for c in put.calls() if c.callee_qp == 'lseek' and _fd_is(c.args[0], '_fod')]
+    ctx.check(len(seeks) == 1 and seeks[0].args[1].strip(casts=True).value == 0 and seeks[0].args[2].strip(casts=True).value == 2 and
+              pc.dominates(pc.vertex_of(seeks[0]), pc.vertex_of(data_write)), RID, F + 'put#append', data_write.loc,
+              'data is appended: lseek(_fod, 0, SEEK_END) dominates the data write and yields the stored offset',
+              'the data write is not preceded by lseek(_fod, 0, SEEK_END) (whence is %s): get() and the range get() reposition the same descriptor, so a put after '
+              'a get writes into the middle of the data file and overwrites stored messages'
+              % (seeks[0].args[2].strip(casts=True).value if seeks else 'missing'))
 
 
 def run(ctx):
@@ -63,10 +75,7 @@ def run(ctx):
                 good = full and bool(rs) and all(q.return_value(r) == 0 for r in rs) and q.reachable_any(pc, fail, q.verts(pc, ins)) is None
         ctx.check(good, 'R27.3', F + 'put#%s-write.checked' % tag, w.loc, 'a short or failed %s write returns false and leaves the in-memory index unchanged' % tag)
     # offset stored = end of data file
-    seeks = [c for c in put.calls() if c.callee_qp == 'lseek' and _fd_is(c.args[0], '_fod')]
-    ctx.check(len(seeks) == 1 and seeks[0].args[1].strip(casts=True).value == 0 and seeks[0].args[2].strip(casts=True).value == 2 and
-              pc.dominates(pc.vertex_of(seeks[0]), pc.vertex_of(wd[0])), 'R27.3', F + 'put#append', wd[0].loc,
-              'data is appended: lseek(_fod, 0, SEEK_END) dominates the data write and yields the stored offset')
+    append_rule(ctx, put, wd[0], 'R27.3')
 
     # ---------------- R27.1 slot reservation
     atoms = q.controlling_atoms(put, wi[0])
@@ -130,5 +139,72 @@ def run(ctx):
               'an index record is replayed only when all %d bytes were read' % n,
               'read() result at the insert is only known to lie in [%s, %s] (record size %d): a torn last record is replayed with stale '
               'bytes from the previous one' % (lo, hi, n))
+    # ---------------- R27.5 offset 0 is a valid file position: a seek has failed only when its result is negative
+    n_sk = 0
+    for fnx in prog.all_functions():
+        if not (fnx.rec or '').endswith('FilePersister'):
+            continue
+        for c in fnx.calls():
+            if c.callee_qp != 'lseek':
+                continue
+            res = {c}
+            par = c.parent
+            while par is not None and par.k in ('ImplicitCastExpr', 'ParenExpr', 'CStyleCastExpr'):
+                par = par.parent
+            if par is not None and par.k == 'BinaryOperator' and par.op in ('-', '+'):
+                par2 = par.parent
+            holder = c.parent
+            while holder is not None and holder.k not in ('DeclStmt', 'BinaryOperator', 'CompoundStmt', 'IfStmt', 'WhileStmt'):
+                holder = holder.parent
+            names = set()
+            if holder is not None and holder.k == 'DeclStmt':
+                for dd, ini_ in holder.r.get('decls', []):
+                    if ini_ >= 0 and c in list(fnx.node(ini_).walk()):
+                        names.add(dd)
+            for (b, a, pol) in q.branches(fnx, lambda a: True):
+                t = a.strip(casts=True)
+                if t.k != 'BinaryOperator' or t.op not in ('<', '<=', '==', '!=', '>', '>='):
+                    continue
+                l, r = t.children
+                involves = (c in list(l.walk()) and l.strip(casts=True) == c) or (l.strip(casts=True).k == 'DeclRefExpr' and l.strip(casts=True).declid in names)
+                if not involves or r.strip(casts=True).value is None:
+                    continue
+                n_sk += 1
+                k = r.strip(casts=True).value
+                fails_only_negative = (t.op == '<' and k == 0) or (t.op == '<=' and k == -1) or (t.op == '==' and k == -1) or (t.op == '!=' and k == -1) or \
+                    (t.op == '>=' and k == 0) or (t.op == '>' and k == -1)
+                ctx.check(fails_only_negative, 'R27.5', '%s#seek-result@%s' % (fnx.qp, t.text().replace(' ', '')[:40]), t.loc,
+                          'the seek result is tested for failure as negative only (`%s`)' % t.text(),
+                          'the seek result is tested with `%s`: offset 0 is a valid position (a torn FIRST record leaves exactly that), so a crash inside the very first '
+                          'index write makes initialise() fail for ever' % t.text())
+    ctx.need(n_sk >= 3, 'fewer than 3 tested lseek results in FilePersister (%d)' % n_sk)
+    # ---------------- R27.6 replay keeps every complete record: the control record stores arbitrary numbers in its fields, so no test on the record's
+    # offset/size fields may keep a record with sequence number 0 out of the index
+    recl = None
+    for a_ in rd[0].args:
+        for x in a_.walk():
+            if x.k == 'DeclRefExpr' and x.decl and x.decl.get('sc') == 'local':
+                recl = x.declid
+    ctx.need(recl is not None, 'initialise(): record buffer of the index read not found')
+    iv = ic.vertex_of(iins[0])
+    rv = ic.vertex_of(rd[0])
+    content = []
+    for (b, a, pol) in q.branches(init, lambda a: any(x.k == 'DeclRefExpr' and x.declid == recl for x in a.walk())):
+        flds = {x.decl['n'] for x in a.walk() if x.k == 'MemberExpr' and x.decl and x.decl.get('k') == 'Field'}
+        if flds & {'_offset', '_size'}:
+            content.append((b, a, pol, flds))
+    dropped = None
+    for (b, a, pol, flds) in content:
+        for way in (True, False):
+            def eo(v, w, lab, _b=b, _way=way):
+                if lab is not None and isinstance(lab[1], bool) and lab[0] == _b:
+                    return lab[1] == _way
+                return True
+            if iv not in ic.reach_from(rv, edge_ok=eo, avoid=[rv]):
+                dropped = (a, way)
+    ctx.check(dropped is None, 'R27.6', F + 'initialise#replay.no-content-filter', iins[0].loc,
+              'no test on a record\'s offset/size fields can keep a complete index record out of the replayed index (%d such test(s))' % len(content),
+              'when `%s` is %s the record just read is not inserted into the index: the control record keeps the TARGET sequence number in its size field, so a '
+              'control record with a large number is dropped on reopen and get(sender, target) fails' % (dropped[0].text() if dropped else '', dropped[1] if dropped else ''))
     ctx.floor('R27.3', 5)
     ctx.floor('R27.4', 3)
